@@ -6,6 +6,7 @@
 import Peppi.Lemmas.PeppiRead
 import Peppi.Lemmas.PeppiRound
 import Peppi.Lemmas.C09P
+import Peppi.Tar
 set_option linter.unusedVariables false
 namespace Peppi.Props.C18
 
@@ -27,5 +28,23 @@ theorem peppiRead_written {χ : Type} (T : TextOracle) (g : PGame χ) (startByte
 /- from `Peppi.Lemmas.C09P` -/
 theorem assertCurrentVersion_iff (v : Nat × Nat × Nat) : assertCurrentVersion v = .ok () ↔ 2 ≤ v.1 :=
   _root_.Peppi.assertCurrentVersion_iff v
+
+/- from `Peppi.Tar` -/
+theorem tarArchive_starts (name data : Bytes) (es : List (Bytes × Bytes)) :
+    (tarArchive ((name, data) :: es)).take name.length = name :=
+  _root_.Peppi.tarArchive_starts name data es
+
+/- from `Peppi.Tar` -/
+theorem tarRead_archive (es : List (Bytes × Bytes)) (hes : ∀ e ∈ es, EntryOK e) (fuel : Nat) (hf : es.length < fuel) :
+    tarRead fuel (tarArchive es) = .ok es :=
+  _root_.Peppi.tarRead_archive es hes fuel hf
+
+/- from `Peppi.Tar` -/
+theorem tarEntry_length (e : Bytes × Bytes) (hn : e.1.length ≤ 100) : (tarEntry e).length % 512 = 0 :=
+  _root_.Peppi.tarEntry_length e hn
+
+/- from `Peppi.Tar` -/
+theorem parseOctal_octal (k n : Nat) (h : n < 8 ^ k) : parseOctal (octal k n) = some n :=
+  _root_.Peppi.parseOctal_octal k n h
 
 end Peppi.Props.C18
